@@ -2035,6 +2035,14 @@ fn run_fsfull(c: &Case) -> Obs {
     // crai0 = an index without records: the gzip encoder makes no write at all before Drop (with
     // records its first write emits the gzip header, which fails at once on a full device)
     let fx = if fmt == "crai0" { Fx::Crai(vec![]) } else { fixture(fmt, seed) };
+    // an FAI index without records is the empty file: nothing has to be written, Ok(()) is right
+    // (every other format writes at least a magic number / a count / a compressed-stream header)
+    if let Fx::Fai(ix) = &fx {
+        let recs: &[fasta::fai::Record] = ix.as_ref();
+        if recs.is_empty() {
+            return Obs::ok("-", false);
+        }
+    }
     let r = guarded(AssertUnwindSafe(|| match (fmt, &fx) {
         ("csi", Fx::Csi(ix)) => csi::fs::write(dst, ix),
         ("tbi", Fx::Tbi(ix)) => tabix::fs::write(dst, ix),
@@ -2237,6 +2245,7 @@ fn generate(rng: &mut Rng, tier: &str, w: &mut CaseWriter) {
     c14_deep4::gen_mta(rng, thorough, w);
     c14_deep4::gen_ixc(rng, thorough, w);
     c14_deep4::gen_async(rng, thorough, w);
+    c14_deep4::gen_awfmt(rng, thorough, w);
 
     // --- L3: failure at every inner call, for every writer of the quantifier
     let rounds = if thorough { 10 } else { 2 };
@@ -2535,6 +2544,7 @@ fn run(c: &Case) -> Obs {
         "mta" => c14_deep4::run_mta(c),
         "ixc" => c14_deep4::run_ixc(c),
         "awa" | "afq" => c14_deep4::run_async(c),
+        "awfmt" => c14_deep4::run_awfmt(c),
         "fob" => run_fob(c),
         "cram" => run_cram(c),
         "fsfull" => run_fsfull(c),
